@@ -299,6 +299,67 @@ func checkC12(c *Ctx, r *Report) {
 		o.NonTrivial = true
 	}
 
+	// ---- C12.e the response API used by each engine's reply code is the reviewed one
+	{
+		want := map[string]map[string]bool{}
+		if raw, ok := tbl["response_api"]; ok {
+			for en, list := range raw {
+				want[en] = map[string]bool{}
+				for _, m := range strings.Fields(list) {
+					want[en][m] = true
+				}
+			}
+		}
+		replyPartials := []string{"JsonResponse", "JsonErrorResponse", "ReplyResponse", "ParamsValidationErrorResponse", "JsonBodyValidationErrorResponse"}
+		ctxOf := map[string][]string{"gin": {"ginCtx"}, "echo": {"echoCtx"}, "fiber": {"fiberCtx"}, "mux": {"w"}, "chi": {"w"}}
+		for _, en := range engines {
+			eng := c.T.Engines[en]
+			viol := ""
+			var sites []string
+			got := map[string]bool{}
+			for _, pn := range replyPartials {
+				t := eng.Partials[pn]
+				if t == nil {
+					continue
+				}
+				sites = append(sites, t.File+":1")
+				toks := goToks(flattenProgram(t.Prog, nil))
+				for i := 0; i+2 < len(toks); i++ {
+					isCtx := false
+					for _, cn := range ctxOf[en] {
+						if toks[i].Tok == token.IDENT && toks[i].Lit == cn {
+							isCtx = true
+						}
+					}
+					// ctx.Method( ...  and chained  ).Method(
+					if (isCtx || toks[i].Tok == token.RPAREN) && toks[i+1].Tok == token.PERIOD && toks[i+2].Tok == token.IDENT && i+3 < len(toks) && toks[i+3].Tok == token.LPAREN {
+						if isCtx || chainedFromCtx(toks, i, ctxOf[en]) {
+							got[toks[i+2].Lit] = true
+						}
+					}
+				}
+			}
+			var unrev []string
+			for m := range got {
+				if !want[en][m] {
+					unrev = append(unrev, m)
+				}
+			}
+			sort.Strings(unrev)
+			for _, m := range unrev[:min(1, len(unrev))] {
+				m = strings.Join(unrev, ", ")
+				{
+					viol = fmt.Sprintf("%s: the reply code calls %s.%s(), which is not in the reviewed response API of this engine (tables/engines.json response_api: %v): framework calls differ in what they write (fiber's SendStatus also writes the status text as the body, gin's AbortWithStatus stops the chain, ...), so an unreviewed call can make this engine answer differently from the other four", en, ctxOf[en][0], m, keys(want[en]))
+				}
+			}
+			if len(got) < 2 {
+				viol = fmt.Sprintf("%s: only %d response API calls recognised in the reply partials (floor 2)", en, len(got))
+			}
+			o := r.add("C12.e", "vocabulary", en+":response-api", en+": replies are written with the reviewed framework calls only", []string{"generator/templates/" + en}, sites, viol)
+			o.NonTrivial = true
+		}
+	}
+
 	// ---- C12.e status sources of replies
 	for _, en := range engines {
 		eng := c.T.Engines[en]
@@ -421,4 +482,36 @@ func mapKeys[T any](m map[string]T) []string {
 	}
 	sort.Strings(out)
 	return out
+}
+
+// chainedFromCtx: the `)` at toks[i] closes a call chain that started at one of the
+// context identifiers (fiberCtx.Status(x).JSON(y)).
+func chainedFromCtx(toks []gtok, i int, ctx []string) bool {
+	depth := 0
+	for j := i; j >= 0; j-- {
+		switch toks[j].Tok {
+		case token.RPAREN:
+			depth++
+		case token.LPAREN:
+			depth--
+			if depth == 0 {
+				// toks[j-1] is the method name, toks[j-2] '.', toks[j-3] receiver or ')'
+				if j >= 3 && toks[j-2].Tok == token.PERIOD {
+					if toks[j-3].Tok == token.IDENT {
+						for _, cn := range ctx {
+							if toks[j-3].Lit == cn {
+								return true
+							}
+						}
+						return false
+					}
+					if toks[j-3].Tok == token.RPAREN {
+						return chainedFromCtx(toks, j-3, ctx)
+					}
+				}
+				return false
+			}
+		}
+	}
+	return false
 }
